@@ -537,6 +537,51 @@ impl Clone for Shared {
 }
 
 #[test]
+fn c08_offset_make_mut_after_the_reader_left() {
+    let a = Arc::new(Shared { v: Cell::new(1) });
+    let mut o = Arc::into_raw_offset(a.clone());
+    let t = std::thread::spawn(move || {
+        assert_eq!(a.v.get(), 1);
+        drop(a);
+    });
+    // learn of the other thread's drop only through the counter (Relaxed): no other synchronisation
+    while OffsetArc::strong_count(&o) != 1 {
+        std::thread::yield_now();
+    }
+    o.make_mut().v.set(2); // in place: must be ordered after the reader's read
+    t.join().unwrap();
+    assert_eq!(o.v.get(), 2);
+}
+
+#[test]
+fn c04_every_count_accessor_on_over_aligned_payloads() {
+    #[repr(align(64))]
+    #[derive(Clone)]
+    struct Wide(u8);
+    let a = Arc::new(Wide(1));
+    let b = a.clone();
+    let o = Arc::into_raw_offset(a.clone());
+    let br = a.borrow_arc();
+    let u: ArcUnion<u8, Wide> = ArcUnion::from_second(a.clone());
+    let u1: ArcUnion<Wide, u8> = ArcUnion::from_first(a.clone());
+    let counts = [
+        Arc::count(&a),
+        Arc::strong_count(&b),
+        OffsetArc::strong_count(&o),
+        ArcBorrow::strong_count(&br),
+        ArcUnion::strong_count(&u),
+        ArcUnion::strong_count(&u1),
+        triomphe::ArcUnionBorrow::strong_count(&u.borrow()),
+        br.with_arc(|x| Arc::count(x)),
+        o.with_arc(|x| Arc::count(x)),
+    ];
+    assert_eq!(counts, [5; 9]);
+    assert_eq!(u.as_second().map(|x| x.0), Some(1));
+    drop((b, o, u, u1));
+    assert_eq!(ArcBorrow::strong_count(&br), 1);
+}
+
+#[test]
 fn c09_racing_unwraps() {
     for _ in 0..3 {
         let a = Arc::new(D(1));
